@@ -6,6 +6,7 @@ import (
 	"math/big"
 	"os"
 	"sort"
+	"strings"
 
 	"verifsim/core"
 )
@@ -53,6 +54,15 @@ func NewConfig(prop string, tier string, r *core.Rand) Config {
 		c.PRestart = 0.03
 		c.PLag = 0.1
 		c.PEvidence = []float64{0.03, 0.1}[r.Intn(2)]
+		if r.Chance(0.3) {
+			// governance-heavy with more restarts: records that are rebuilt by decoding differ from the
+			// objects a running node keeps only if something relies on identity or on unexported state
+			c.KindW["proposal"], c.KindW["vote"] = 2.5, 6
+			c.PRestart = 0.12
+			c.NVals = r.Range(2, 5)
+			c.NActors = c.NVals + r.Range(3, 6)
+			c.Blocks = r.Range(24, 40)
+		}
 	case "C02":
 		c.KindW["stake"], c.KindW["delegate"], c.KindW["unstake"], c.KindW["withdraw"] = 3, 3, 3, 2
 		c.PInvalid = 0.3
@@ -154,6 +164,7 @@ func NewConfig(prop string, tier string, r *core.Rand) Config {
 	case "C12":
 		c.KindW["stake"], c.KindW["delegate"], c.KindW["unstake"], c.KindW["proposal"], c.KindW["vote"] = 3, 3, 5, 1, 2
 		c.PInvalid = 0.3
+		c.PTamper = []float64{0, 0.08}[r.Intn(2)] // releases altered after signing ("only by a transaction signed by the account that created it")
 	case "C13":
 		c.KindW["withdraw"], c.KindW["stake"], c.KindW["delegate"], c.KindW["unstake"] = 4, 2, 3, 1.5
 		c.PAbsent = []float64{0.1, 0.3}[r.Intn(2)]
@@ -522,6 +533,9 @@ func (g *Generator) mutation(kind string) *Mutation {
 		fields = append(fields, "inject", "inject", "inject")
 	}
 	f := fields[g.r.Intn(len(fields))]
+	if kind == "unstake" && g.r.Chance(0.5) {
+		return &Mutation{Field: "payload"}
+	}
 	if kind == "withdraw" && g.r.Chance(0.4) {
 		return &Mutation{Field: "payload", How: []string{"w64", ""}[g.r.Intn(2)]}
 	}
@@ -711,8 +725,15 @@ func (g *Generator) intent(h int64) Intent {
 		it = Intent{Kind: "vote", Actor: act, Prop: pi, Choice: ch}
 	case "setdoc":
 		it = Intent{Kind: "setdoc", Actor: g.richActor(), Name: fmt.Sprintf("name%d", g.r.Intn(100)), URL: fmt.Sprintf("https://d/%d", g.r.Intn(100))}
-		if g.r.Chance(0.05) {
+		switch g.r.Intn(20) {
+		case 0:
 			it.Name = string(make([]byte, 2049))
+		case 1:
+			it.URL = "https://d/" + strings.Repeat("u", 2040) // too long, beside an acceptable new name
+		case 2, 3:
+			it.URL = "" // one field empty
+		case 4, 5:
+			it.Name = ""
 		}
 	case "deploy":
 		code, _ := g.program()
